@@ -50,7 +50,7 @@ def mark_lit(v):
     if isinstance(v, (int, np.integer)):
         return f"(MInt {C.zlit(int(v))})"
     if isinstance(v, (float, np.floating)):
-        return f"(MFloat {C.qlit(float(v))})"
+        return "MNaN" if math.isnan(v) else f"(MFloat {C.qlit(float(v))})"
     if isinstance(v, str):
         assert all(ch.isalnum() or ch == " " for ch in v)
         return f'(MStr "{v}"%string)'
@@ -129,16 +129,19 @@ def jcase(c):
 #   ("world", t, f)   one encoding for the whole world
 # ABSENT as the falsy encoding means the key is left out.
 ABSENT = object()
-TRUTHY_ALL = TRUTHY + [np.int64(1), np.bool_(True), "1", "X", np.float64(1.0), np.int32(3)]
+NANS = [float("nan"), np.nan, np.float64("nan")]      # truthy in Python: bool(float('nan')) is True
+TRUTHY_ALL = TRUTHY + [np.int64(1), np.bool_(True), "1", "X", np.float64(1.0), np.int32(3)] + NANS
 FALSY_ALL = FALSY + [np.int64(0), np.bool_(False), np.float64(0.0), ABSENT]
-TRUTHY_ONE = [True, 1, 1.0, np.int64(1), np.bool_(True), "1", "X"]
+TRUTHY_ONE = [True, 1, 1.0, np.int64(1), np.bool_(True), "1", "X", float("nan"), np.float64("nan")]
 FALSY_ONE = [False, 0, 0.0, "", None, ABSENT]
 MARK_STYLE = [("mark", TRUTHY, FALSY)]
 
 
 def set_mark_style(rng):
-    k = rng.choice(["legacy", "mark", "mark", "ballot", "ballot", "world", "world"])
-    if k == "legacy":
+    k = rng.choice(["legacy", "mark", "mark", "ballot", "ballot", "world", "world", "nan"])
+    if k == "nan":        # NaN-encoded marks alone or next to one other encoding
+        MARK_STYLE[0] = ("mark", NANS + [rng.choice(TRUTHY_ONE)] * rng.randint(0, 2), FALSY_ALL)
+    elif k == "legacy":
         MARK_STYLE[0] = ("mark", TRUTHY, FALSY)
     elif k == "world":
         MARK_STYLE[0] = ("world", [rng.choice(TRUTHY_ONE)], [rng.choice(FALSY_ONE)])
